@@ -14,8 +14,10 @@
   changes cluster values decides which boundary the old flags now speak about.  `delete_glyph` in a descending buffer hands the
   deleted glyph's flags to the run that takes over its cluster value (the boundary at the start of c is still there);
   every other path (`merge_clusters`, `merge_out_clusters`, the forward merge of `delete_glyph`) clears the flags of a renamed
-  glyph and leaves every other glyph alone, as HarfBuzz does.  `delete_glyphs_inplace` repeats the same branches in place; its
-  contract is checked by the `flags-carry` correspondence and the `carry-exact` oracle only (tools/props/C03.py).
+  glyph and leaves every other glyph alone, as HarfBuzz does.  `delete_glyphs_inplace` repeats the same branches in place:
+  its "Merge cluster backward" iteration is `C03_delin_backward_carries_flags` (the run that takes over the deleted glyph's
+  cluster value carries the DELETED glyph's flags); its other branches are checked by the `flags-carry` correspondence and the
+  `carry-exact` oracle (tools/props/C03.py).
 
   `Upd l l' p q test upd`: `l'` is `l` with `upd` applied to exactly the entries `p ≤ j < q` that pass `test`
   (same length, everything else untouched).  `neCl m x` = "cluster of x differs from m", `orMask f x` = `x.mask |= f`.
@@ -271,6 +273,52 @@ theorem C03_delete_backward_witness :
         len := 3, idx := 1, outLen := 1, haveOutput := true } : Buf).deleteGlyph).map
       (fun b => (b.info.map (fun x => (x.cluster, exposed x)), b.idx, b.outLen))
       = .ok ([(1, 3), (1, 3), (0, 0)], 2, 1) := by rfl
+
+/-- **delete_glyphs_inplace, "Merge cluster backward"** (what `hide_default_ignorables` runs after positioning, i.e. after the
+    final reversal of a right-to-left run: clusters descend).  One iteration of its loop, read head `i`, write head `j`
+    (`[0, j)` = the glyphs kept so far): the glyph `x = info[i]` is to be deleted (`var2 = 1` is the filter of the model), is
+    alone in its cluster (the next glyph has another cluster value) and the last kept glyph `p = info[j-1]` has a LARGER cluster
+    value.  Then the iteration does not panic and continues with read head `i + 1`, the SAME write head and an `info` array in
+    which the maximal run `[k, j)` of kept glyphs with `p`'s cluster value is renamed to `x`'s cluster, keeps its non-flag mask
+    bits and carries EXACTLY the glyph flags of the deleted glyph `x` — not those of `p`, not none; every other entry is
+    untouched.  For every buffer, every position, every level, every mask content. -/
+theorem C03_delin_backward_carries_flags (b : Buf) (i j fuel : Nat) (x p : Info) (hi : i < b.len)
+    (hlen : b.len ≤ b.info.length) (hji : j ≤ i) (hj : j ≠ 0)
+    (hx : b.info[i]? = some x) (hdel : x.var2 = 1) (hp : b.info[j - 1]? = some p)
+    (hnext : ∀ nx, i + 1 < b.len → b.info[i + 1]? = some nx → nx.cluster ≠ x.cluster)
+    (hlt : x.cluster < p.cluster) :
+    ∃ info k, Buf.deleteGlyphsInplace.loop b i j (fuel + 1) = Buf.deleteGlyphsInplace.loop { b with info := info } (i + 1) j fuel ∧
+      k < j ∧ info.length = b.info.length ∧
+      (∀ q, k ≤ q → q < j → ∃ y, b.info[q]? = some y ∧ y.cluster = p.cluster ∧
+          info[q]? = some { y with cluster := x.cluster,
+                                   mask := (y.mask &&& (U32MAX - Flag.DEFINED)) ||| (x.mask &&& Flag.DEFINED) }) ∧
+      (∀ q, ¬ (k ≤ q ∧ q < j) → info[q]? = b.info[q]?) ∧
+      (k = 0 ∨ Buf.cl? b.info (k - 1) ≠ some p.cluster) ∧
+      (∀ q y', k ≤ q → q < j → info[q]? = some y' → y'.cluster = x.cluster ∧ exposed y' = exposed x) :=
+  Buf.delin_backward_carries b i j fuel x p hi hlen hji hj hx hdel hp hnext hlt
+
+example : ∃ (b : Buf) (i j : Nat) (x p : Info), i < b.len ∧ b.len ≤ b.info.length ∧ j ≤ i ∧ j ≠ 0 ∧ b.info[i]? = some x ∧
+    x.var2 = 1 ∧ b.info[j - 1]? = some p ∧
+    (∀ nx, i + 1 < b.len → b.info[i + 1]? = some nx → nx.cluster ≠ x.cluster) ∧ x.cluster < p.cluster := by
+  refine ⟨{ info := [{ gid := 3, cluster := 3 }, { gid := 2, cluster := 2 }, { gid := 0, cluster := 1, mask := 2, var2 := 1 },
+                     { gid := 1, cluster := 0, mask := 2 }], len := 4 }, 2, 2,
+          { gid := 0, cluster := 1, mask := 2, var2 := 1 }, { gid := 2, cluster := 2 }, by decide, by decide, by decide, by decide,
+          rfl, rfl, rfl, ?_, by decide⟩
+  intro nx _ h
+  simp at h
+  subst h
+  decide
+
+/-- the seeded situation as a closed instance of the whole routine: Hebrew ALEF ZWNJ BET LAMED, right to left, the buffer after
+    the final reversal is LAMED(3) BET(2) ZWNJ(1) ALEF(0); a ligature attempt ALEF + LAMED failed AT the ZWNJ, so ALEF and ZWNJ
+    carry UNSAFE_TO_CONCAT; the font has no space glyph and the ZWNJ is deleted: BET takes over cluster 1 AND the ZWNJ's flag
+    (reading the mask of the kept glyph instead would leave BET = 1 without the flag) -/
+theorem C03_delin_backward_witness :
+    (({ info := [{ gid := 3, cluster := 3 }, { gid := 2, cluster := 2 }, { gid := 0, cluster := 1, mask := 2, var2 := 1 },
+                 { gid := 1, cluster := 0, mask := 2 }],
+        out := [{}, {}, {}, {}], len := 4 } : Buf).deleteGlyphsInplace).map
+      (fun b => ((b.info.take b.len).map (fun x => (x.gid, x.cluster, exposed x)), b.len))
+      = .ok ([(3, 3, 0), (2, 1, 2), (1, 0, 2)], 3) := by rfl
 
 /-- **delete_glyph, every other case with a non-empty out-buffer or a surviving cluster**: when the next glyph or the last
     out-buffer glyph shares the deleted glyph's cluster value ("Cluster survives") or the last out-buffer glyph has a SMALLER
